@@ -123,8 +123,11 @@ func Lifecycle(a Args) {
 		time.Sleep(300 * time.Millisecond)
 		baseG = runtime.NumGoroutine()
 	}
-	n := 0
+	n, bad := 0, 0
 	for _, s := range streams {
+		if bad >= 12 {
+			break // every further experiment would wait out its deadline as well; a dozen are evidence enough
+		}
 		var all []byte
 		bounds := map[int]bool{}
 		for _, p := range s.parts {
@@ -198,10 +201,13 @@ func Lifecycle(a Args) {
 			rec.Emit(map[string]interface{}{"ev": "prefix", "cfg": a.Cfg.String(), "proto": a.Proto, "stream": s.name, "n": k, "len": len(all), "at": at,
 				"open_l1": o1, "open_l2": o2, "gor": g, "fresh_ok": fresh == "ok", "fresh": fresh, "accepting": accepting})
 			n++
-			if held {
+			if o1 != 0 || o2 != 0 || g > 0 || fresh != "ok" || !accepting {
+				bad++
+			}
+			if held || bad >= 12 {
 				break
 			}
 		}
 	}
-	fmt.Printf("{\"experiments\": %d, \"streams\": %d}\n", n, len(streams))
+	fmt.Printf("{\"experiments\": %d, \"streams\": %d, \"not_released\": %d, \"stopped_early\": %v}\n", n, len(streams), bad, bad >= 12)
 }
